@@ -73,7 +73,7 @@ PROPS = {
     "C07": P(workloads="mq-conc last-sender (drops racing receives on shared and separate streams, blocking and non-blocking entry points); mq-wake end phase (consumers blocked when all senders are dropped at the same instant)"),
     "C08": P(q=50, workloads="mq-wake: consumers blocked in recv / recv_view / blocking iterators under Busy / Yielding / Blocking strategies with default and zero spins; Miri slice (deadlock detector)"),
     "C09": P(q=200, t=2000, assumptions=SEQ_ASSUME, workloads="mq-seq random sequences of 300 calls over all eight handle families + exhaustive enumeration of a 14-command alphabet; Miri slice for UB on sequential paths"),
-    "C10": P(workloads="mq-conc add-stream-sole and add-stream-shared with stalls between snapshot and publication"),
+    "C10": P(workloads="mq-conc add-stream-sole and add-stream-shared (one or two adders, rendezvous stalls between snapshot / publication and the writers' scan), mq-fut scenarios in which a polled receiver adds a stream and drops the parent"),
     "C11": P(workloads="mq-conc remove-stream (producers refused against a slow stream that is then removed, optionally racing an add_stream on another stream), no-receiver with simultaneous unsubscribes, mq-seq unsubscribe results, mq-fut scenarios in which a receiver leaves while a sink is parked"),
     "C12": P(workloads="mq-conc handle-churn: senders 1->2->1, consumers of a stream 1->2->1 via clone/drop/unsubscribe/into_single/into_multi during traffic"),
     "C13": P(q=50, workloads="mq-seq (every order of dropping receivers, all sender flavours), mq-conc no-receiver (last receiver leaves while producers send), mq-fut (sink parked while the last receiver is dropped)"),
@@ -147,7 +147,8 @@ def jobs_for(prop, tier, seed):
         J.append(miri(prop, seed, "seq", ["seq", "--runs", "3", "--len", "50", "--perm-every", "0"], ms, mt, {"*": "C09"}, base=29))
     elif prop == "C10":
         J += conc(prop, seed, ["add-stream-sole"], n // 2, s)
-        J += conc(prop, seed, ["add-stream-shared"], n - n // 2, s, label="shared", base=40)
+        J += conc(prop, seed, ["add-stream-shared"], n - n // 2 - 2, s, label="shared", base=40)
+        J += shard_jobs(prop, seed, ["fut"], 2, s, "fut", base=60)
     elif prop == "C11":
         J += conc(prop, seed, ["remove-stream", "remove-stream", "no-receiver"], n - 5, s)
         J += shard_jobs(prop, seed, ["seq", "--cfgs", "broadcast"], 2, s, "seq", base=100)
